@@ -185,6 +185,32 @@ pub fn v1_history(x: &[u8], salt: u64) -> Vec<Vec<u8>> {
             }
         }
     }
+    // (4b) a change that a checksum-like fingerprint of the line does not see: the same XOR delta
+    //      on two characters 1 / 2 / 4 / 8 apart, or +1 / -1 on two neighbours
+    if line_len >= 20 {
+        let dist = *rng.pick(&[1usize, 2, 4, 8, 8]);
+        let lo = 6;
+        let hi = line_len.saturating_sub(2 + dist);
+        if hi > lo {
+            let i = rng.range(lo as u64, hi as u64 - 1) as usize;
+            let mut v = x.to_vec();
+            let ok = |b: u8| b.is_ascii_alphanumeric() || b == b'.' || b == b':';
+            if ok(v[i]) && ok(v[i + dist]) {
+                if rng.chance(3, 4) {
+                    let d = *rng.pick(&[0x08u8, 0x01, 0x02, 0x04]);
+                    v[i] ^= d;
+                    v[i + dist] ^= d;
+                } else {
+                    v[i] = v[i].wrapping_add(1);
+                    v[i + dist] = v[i + dist].wrapping_sub(1);
+                }
+                if ok(v[i]) && ok(v[i + dist]) {
+                    h.push(x.to_vec());
+                    h.push(v);
+                }
+            }
+        }
+    }
     // (5) and x once more: the answer must be the same as the first time
     h.push(x.to_vec());
     h
